@@ -14,7 +14,7 @@ from mc.engine import ok, bad, skip, HarnessError
 PROPERTY = "C66"
 LEVEL = "model_checking"
 TECHNIQUE = "stateless model checking of real threads: baton scheduler at line granularity of the registry functions, iterative preemption bounding (<=2/3 preemptions), stack-of-dicts reference per thread"
-LEVEL_TEXT = ("Every interleaving with at most 2 preemptions (thorough 3) of every pair/triple of 6 thread programs over enter/add/fix/list/has/"
+LEVEL_TEXT = ("Every interleaving with at most 2 preemptions (thorough 3) of every pair/triple of 7 thread programs over enter/add/fix/list/has/"
               "exit/raise/nested-enter on one shared operator name is executed on the real registry with real threads; plus all sequential nested "
               "histories up to depth 5. Each read must equal the thread's own stack-of-dicts prediction; the global registry must be unchanged.")
 LEVEL_NOTE = ("Scheduling points only inside the registry functions (all accesses to the shared registries happen there); CPython GIL semantics; "
@@ -34,6 +34,7 @@ PROGRAMS = {
     "P4": ["list", "fixed", "list"],
     "P5": ["enter", "add2", "has2", "exit", "has2"],
     "P6": ["enter", "add", "enter", "fix", "raise", "list", "fixed", "exit", "list"],
+    "P7": ["enter", "fix", "enter", "fix", "fixed", "exit", "fixed", "list", "exit", "fixed"],
 }
 _RULES = {}
 _SETUP = {}
@@ -274,6 +275,22 @@ def sequential_programs(depth):
     return out
 
 
+def nested_family():
+    """enter W1 enter W2 (exit|raise) R1 (exit|raise) R2 — every combination of writes in the outer and the inner
+    context and of reads after the inner and after the outer context has been left (900 programs)."""
+    W = [[], ["add"], ["fix"], ["add", "fix"], ["fix", "add"]]
+    R = [["fixed"], ["list"], ["fixed", "list"]]
+    out = []
+    for w1 in W:
+        for w2 in W:
+            for e1 in ("exit", "raise"):
+                for r1 in R:
+                    for e2 in ("exit", "raise"):
+                        for r2 in R:
+                            out.append(["enter"] + w1 + ["enter"] + w2 + [e1] + r1 + [e2] + r2)
+    return out
+
+
 def check_freerun(spec):
     """Free-running smoke pass (no baton): the same bodies under the OS scheduler with a tiny switch interval.
     Reported, never decides on its own except for a plain isolation failure (which would be a real one)."""
@@ -307,7 +324,7 @@ def run(ctx):
     names = list(PROGRAMS)
     bound = 2
     combos = [list(c) for c in itertools.combinations_with_replacement(names, 2)]
-    small = ("P1", "P2", "P4")
+    small = ("P1", "P2", "P4")  # P7 pairs are explored with bound 1 in quick
     if ctx.quick:
         # bound 1 on every pair, bound 2 on the pairs of the four short programs
         specs = [{"programs": c, "bound": 2 if all(p in small for p in c) else 1} for c in combos]
@@ -325,13 +342,14 @@ def run(ctx):
         tot["preempted"] += x.get("preempted", 0)
         tot["points"] = max(tot["points"], x.get("points", 0))
     seq = sequential_programs(4 if ctx.quick else 5)  # 1808 / ~17k well-nested words
+    seq = seq + nested_family()
     ctx.enumerate([{"prog": p} for p in seq], fn="check_sequential", axis="sequential")
     ctx.enumerate([{"programs": c, "reps": 50} for c in combos[:6]], fn="check_freerun", axis="freerun", parallel=False)
     ctx.coverage.update({
         "states": tot["schedules"], "transitions": tot["schedules"] * max(tot["points"], 1),
         "traces_validated_against_impl": tot["schedules"], "schedules": tot["schedules"],
         "schedules_with_preemption": tot["preempted"], "max_scheduling_points": tot["points"],
-        "preemption_bound_completed": {"quick": "1 on all 21 pairs, 2 on the 6 pairs of P1,P2,P4", "thorough": "2 on all 21 pairs, 3 on pairs of P1,P2,P4, 1 on all 20 triples"}[ctx.tier], "thread_program_tuples": len(specs), "sequential_histories": len(seq),
+        "preemption_bound_completed": {"quick": "1 on all 28 pairs, 2 on the 6 pairs of P1,P2,P4", "thorough": "2 on all 28 pairs, 3 on pairs of P1,P2,P4, 1 on all 35 triples"}[ctx.tier], "thread_program_tuples": len(specs), "sequential_histories": len(seq),
         "alphabet": {"programs": PROGRAMS, "shared_name": NAME},
         "explanation": "states = complete schedules executed on real threads; transitions = schedules x max scheduling points (upper bound)",
     })
